@@ -31,9 +31,10 @@ Schema(
         "textx_tools_support": "bool",
         "user_classes": "dict",
         "auto_init_attributes": "bool",
-        "namespaces": "dict",
-        "_namespace_stack": "list",
-        "_imported_namespaces": "dict",
+        "namespaces": "dict[dict]",
+        "_namespace_stack": "list[str|none]",
+        "_imported_namespaces": "dict[list[dict]]",
+        "root_path": "str|none",
         "referenced_languages": "dict",
         "_model_processors": "list",
         "debug": "bool",
